@@ -240,7 +240,9 @@ func (its *jsonPrimitive) getTargetByPaths(paths []string) (jsonType, errors.Ord
 func (its *jsonPrimitive) getTargetFromPatch(path string) (jsonType, string, errors.OrdaError) {
 	paths := strings.Split(path, "/")
 
-	if len(paths) < 1 {
+	// a pointer to a member has at least two tokens ("/key" -> "", "key"); the empty pointer
+	// names the whole document, which cannot be the target of a patch operation
+	if len(paths) < 2 {
 		return nil, "", errors.DatatypeInvalidPatch.New(its.common.L(), "incorrect path: %v", path)
 	}
 	// the path is a JSON pointer (RFC 6901): "~1" stands for "/" and "~0" for "~" inside a key
